@@ -898,8 +898,8 @@ impl CxxCodeBodyTranslator {
                     BuiltinFunctionKind::Max => format!("std::max({})", formatted_args.join(", ")),
                     BuiltinFunctionKind::Min => format!("std::min({})", formatted_args.join(", ")),
                     BuiltinFunctionKind::Tr => format!(
-                        "QCoreApplication::translate({context:?}, {args})",
-                        context = self.tr_context,
+                        "QCoreApplication::translate({context}, {args})",
+                        context = format_cxx_string_literal(&self.tr_context),
                         args = formatted_args.join(", "),
                     ),
                 }
@@ -971,8 +971,10 @@ impl CxxCodeBodyTranslator {
                 }
                 ConstantValue::Integer(v) => v.to_string(),
                 ConstantValue::Float(v) => format!("{v:e}"),
-                ConstantValue::CString(v) => format!("{v:?}"), // TODO: escape per C spec)
-                ConstantValue::QString(v) => format!("QStringLiteral({v:?})"),
+                ConstantValue::CString(v) => format_cxx_string_literal(v),
+                ConstantValue::QString(v) => {
+                    format!("QStringLiteral({})", format_cxx_string_literal(v))
+                }
                 ConstantValue::NullPointer => "nullptr".to_owned(),
                 ConstantValue::EmptyList => "{}".to_owned(),
             },
@@ -982,6 +984,28 @@ impl CxxCodeBodyTranslator {
             Operand::Void(_) => "void()".to_owned(),
         }
     }
+}
+
+/// Formats the given string as a C++ (narrow or `u""`) string literal denoting it.
+///
+/// Control characters are written as 3-digit octal escapes, which cannot absorb a following
+/// digit. Any other character is written as is (the header is UTF-8.)
+fn format_cxx_string_literal(s: &str) -> String {
+    let mut out = String::with_capacity(s.len() + 2);
+    out.push('"');
+    for c in s.chars() {
+        match c {
+            '"' => out.push_str("\\\""),
+            '\\' => out.push_str("\\\\"),
+            '\n' => out.push_str("\\n"),
+            '\r' => out.push_str("\\r"),
+            '\t' => out.push_str("\\t"),
+            c if (c as u32) < 0x20 || c == '\x7f' => out.push_str(&format!("\\{:03o}", c as u32)),
+            c => out.push(c),
+        }
+    }
+    out.push('"');
+    out
 }
 
 fn member_access_op(a: &tir::Operand) -> &'static str {
